@@ -208,8 +208,12 @@ XItemQE(item, Ts, nativeCidr) ==      \* [st |-> ok|fail|unspec|dropped, e]
         ELSE LET rs == [j \in 1..Len(w.alts) |->
                           ItemQEx([item EXCEPT !.field = w.alts[j].name], nativeCidr,
                                   LAMBDA f, v : ApplyVts(w.alts[j].vts, <<IF w.alts[j].wrap THEN WrapKw(v) ELSE v>>, 1))]
+                 \* one field mapped onto several: "the field, under whichever of these names" - the item written for the field
+                 \* holds if it holds under one of the names; a NEGATED item (neq) says that it holds under none of them
+                 negated == LET r == Apply(item.vals, item.chain, TRUE) IN r.status = "ok" /\ r.negated
              IN  [st |-> Worst([j \in 1..Len(rs) |-> rs[j].st]),
-                  e |-> IF Len(rs) = 1 THEN rs[1].e ELSE QOr([j \in 1..Len(rs) |-> rs[j].e])]
+                  e |-> IF Len(rs) = 1 THEN rs[1].e
+                        ELSE IF negated THEN QAnd([j \in 1..Len(rs) |-> rs[j].e]) ELSE QOr([j \in 1..Len(rs) |-> rs[j].e])]
 
 XMapQE(items, Ts, nativeCidr) ==
     LET rs == [k \in 1..Len(items) |-> XItemQE(items[k], Ts, nativeCidr)]
